@@ -1077,9 +1077,11 @@ func (s *Store[K, V]) processSecondary() {
 			verifAt(VpSecTake, s, item.entry, nil)
 		}
 		tk := item.shard.mu.RLock()
-		// first double check key still exists in map,
-		// not exist means key already deleted by Delete API
-		_, exist := item.shard.get(item.entry.key)
+		// first double check the evicted entry is still the one in the map:
+		// not there means the key was already deleted by Delete API, another entry
+		// there means it was deleted and set again, and this entry's value is stale
+		cur, exist := item.shard.get(item.entry.key)
+		exist = exist && cur == item.entry
 		if verifOn {
 			verifAt(VpSecCheck, s, item.entry, nil, verifB(exist))
 		}
